@@ -18,7 +18,9 @@
 //     ValidateTransactions.
 //
 // The lockset walk is intra-procedural over straight-line / defer / branch patterns:
-//   x.mu.Lock() … x.mu.Unlock(), defer x.mu.Unlock(), RLock/RUnlock, unlock-before-return inside a branch.
+//
+//	x.mu.Lock() … x.mu.Unlock(), defer x.mu.Unlock(), RLock/RUnlock, unlock-before-return inside a branch.
+//
 // Fail closed: a construct the walk cannot classify (lock state differing between branches, a return with a
 // non-deferred lock held, an address of a field escaping, a goroutine, a slice/map field passed to an unknown
 // function, …) is an error unless it is in the allow-list `allowed` below — each entry says why.
@@ -59,7 +61,7 @@ var allowed = map[string]string{
 	// mutex on every path that reaches them, which is all this table states.
 	"Round.Restart: return with Round.mutex held": "C37:rejected-restart-leaves-mutex-locked (known finding of C37)",
 	// ReadLockable interface: the caller holds the read lock between the two calls; neither method touches a field.
-	"Block.DoReadLock: function ends with Block.ticketsMutex held":   "ReadLockable.DoReadLock hands the read lock to the caller",
+	"Block.DoReadLock: function ends with Block.ticketsMutex held":      "ReadLockable.DoReadLock hands the read lock to the caller",
 	"Block.DoReadUnlock: unlock of Block.ticketsMutex that is not held": "ReadLockable.DoReadUnlock releases the caller's read lock",
 }
 
@@ -138,8 +140,8 @@ type world struct {
 	fset  *token.FileSet
 	pkgs  map[string]*packages.Package
 	gosrc string
-	fns   map[string]*fn         // by key
-	byObj map[*types.Func]*fn    // declared functions of the analysed packages
+	fns   map[string]*fn      // by key
+	byObj map[*types.Func]*fn // declared functions of the analysed packages
 	errs  []string
 	used  map[string]bool // allow-list entries that were needed
 }
@@ -266,6 +268,7 @@ func main() {
 	}
 	gosrc, _ := filepath.Abs(os.Args[1])
 	out := os.Args[2]
+	os.Remove(out + ".json") // a failed extraction must not leave the previous table behind for the harness
 	fset, pkgs := load(gosrc, pRound, pBlock)
 	w := &world{fset: fset, pkgs: pkgs, gosrc: gosrc, fns: map[string]*fn{}, byObj: map[*types.Func]*fn{}, used: map[string]bool{}}
 
@@ -398,9 +401,19 @@ func main() {
 	for _, e := range entries {
 		isEntry[e.Fn] = true
 	}
+	isSetup := map[string]bool{}
+	for _, k := range setup {
+		isSetup[k] = true
+	}
 	for _, k := range keys {
 		if reach[k] && !isEntry[k] && !called[k] {
 			dead = append(dead, k)
+			if !isSetup[k] {
+				// an unexported function with accesses that no entry reaches by a static call: it may be called through
+				// an interface or a function value, and the table would then say nothing about it
+				fmt.Fprintf(os.Stderr, "xc44: unclassified: function %s touches shared state but is reached by no static call from an entry point\n", k)
+				os.Exit(1)
+			}
 		}
 	}
 
